@@ -37,7 +37,7 @@ KINDS = ["inbound_req_basic", "inbound_req_threading", "inbound_req_threading_no
          "refused_while_stopping", "late_and_unknown_answers", "conn_with_request_closed", "outbound_req_timeout",
          "conn_closed_mid_frame", "inbound_req_raise", "inbound_req_threading_raise",
          "second_conn_cycles", "request_then_garbage", "inbound_req_threading_conn_gone",
-         "inbound_req_dispatched_after_conn_gone", "socket_creation_fails"]
+         "inbound_req_dispatched_after_conn_gone", "socket_creation_fails", "cer_handled_after_conn_gone"]
 PEER = "peer1.verif.example"
 
 
@@ -358,6 +358,33 @@ class Kind:
                         break
                 h.settle()
                 late_stage.discard(c)
+        elif kind == "cer_handled_after_conn_gone":
+            # the peer sends its CER and goes away at once: the read thread is handling the CER (it has been let in:
+            # the connection was still there) when the I/O thread removes the connection; the hand-over to the
+            # capabilities-exchange code is delayed - a delay only, bounded - until that has happened
+            node = w.node
+            self.dispatched_late = 0
+            orig_cer = node.receive_cer
+
+            def delayed_cer(conn, message):
+                end = time.time() + 1.0
+                while time.time() < end and conn.ident in node.connections:
+                    time.sleep(0.0005)
+                if conn.ident not in node.connections:
+                    self.dispatched_late += 1
+                return orig_cer(conn, message)
+
+            node.receive_cer = delayed_cer
+            for i in range(n):
+                sp = self.connect(i, cer=False)
+                c = h.conn_of(sp)
+                sp.send(M.cer(PEER if i % 2 else "stranger.verif.example", REALM, auth=[4], hbh=1, e2e=i + 1))
+                sp.close()
+                for _ in range(8):
+                    h.tick()
+                    if c is None or c.ident not in node.connections:
+                        break
+                h.settle()
         elif kind == "request_then_garbage":
             # the connection closes itself (unparseable bytes) while answers to the requests before them are pending
             for i in range(n):
@@ -529,6 +556,12 @@ def run_shard(spec):
                 if k.late_answered < n // 2:
                     return {"evaluations": 0, "hashes": [], "witnesses": [], "samples": [], "coverage": cov,
                             "inconclusive": f"{kind}: only {k.late_answered} of {n} requests timed out before their answer"}
+            if kind == "cer_handled_after_conn_gone":
+                cov["cers_handled_after_connection_removed"] = cov.get("cers_handled_after_connection_removed", 0) + k.dispatched_late
+                if k.dispatched_late < n // 4:
+                    return {"evaluations": 0, "hashes": [], "witnesses": [], "samples": [], "coverage": cov,
+                            "inconclusive": f"{kind}: only {k.dispatched_late} of {n} CERs were handled after their "
+                                            f"connection had been removed"}
             if kind == "inbound_req_dispatched_after_conn_gone":
                 cov["requests_dispatched_after_connection_removed"] = \
                     cov.get("requests_dispatched_after_connection_removed", 0) + k.dispatched_late
